@@ -210,6 +210,12 @@ fn exec(pool: &[Bdd], vs: &BddVariableSet, locals: &[V], ins: &str) -> Result<V,
         "lim_flip" => ob(Bdd::fused_binary_flip_op_with_limit(a[1].parse().unwrap(), (bdd(a[2])?, parse_optvar(a[3])),
             (bdd(a[4])?, parse_optvar(a[5])), parse_optvar(a[6]), op_by_name(a[0]))),
         "flip" => b(Bdd::fused_binary_flip_op((bdd(a[1])?, parse_optvar(a[2])), (bdd(a[3])?, parse_optvar(a[4])), parse_optvar(a[5]), op_by_name(a[0]))),
+        // writer-taking functions into an accepting sink
+        "wbytes" => { let mut sink: Vec<u8> = vec![]; bdd(a[0])?.write_as_bytes(&mut sink).unwrap(); t(sink.iter().map(|x| format!("{:02x}", x)).collect()) }
+        "wstring" => { let mut sink: Vec<u8> = vec![]; bdd(a[0])?.write_as_string(&mut sink).unwrap(); t(String::from_utf8(sink).unwrap()) }
+        "wdot" => { let mut sink: Vec<u8> = vec![]; bdd(a[0])?.write_as_dot_string(&mut sink, vs, a[1] == "1").unwrap(); t(format!("dot{}", fnv(&String::from_utf8(sink).unwrap()))) }
+        "rbytes" => { let bytes = bdd(a[0])?.to_bytes(); ob(Bdd::read_as_bytes(&mut &bytes[..]).ok()) }
+        "rstring" => { let text = bdd(a[0])?.to_string(); ob(Bdd::read_as_string(&mut text.as_bytes()).ok()) }
         "cmp" => {
             let (x, y) = (bdd(a[0])?, bdd(a[1])?);
             t(format!("{:?}.{:?}.{:?}.{}", Bdd::cmp_size(x, y), Bdd::cmp_cardinality(x, y), Bdd::cmp_structural(x, y), (x == y) as u8))
@@ -438,8 +444,219 @@ pub fn run(key: &str, a: &[String], out: &mut Out) {
             let obs = if seen.is_empty() { s("~") } else { seen.iter().map(|x| x.iter().cloned().collect::<Vec<_>>().join("#")).collect::<Vec<_>>().join(";") };
             out.case(key, a, &[obs, builds.to_string()]);
         }
+        "C19.hist" => {
+            // n pool disturbance panel => panel texts on a fresh thread; hashes of the panel after the disturbance on a
+            // fresh thread, of both panels of (disturbance, panel, disturbance, panel) on a fresh thread, of the panel
+            // on THIS thread (whose history is everything the harness did so far), of (disturbance, panel) on this
+            // thread; outcomes of the disturbance items
+            let pool = Arc::new(parse_pool(&a[1]));
+            let vs = Arc::new(var_set(a[0].parse().unwrap()));
+            let (dist, panel) = (a[2].clone(), a[3].clone());
+            let fresh = |f: Box<dyn FnOnce(&[Bdd], &BddVariableSet) -> Vec<Vec<String>> + Send>| -> Vec<Vec<String>> {
+                let (pool, vs) = (pool.clone(), vs.clone());
+                std::thread::spawn(move || f(&pool, &vs)).join().unwrap_or_else(|_| vec![vec![s("thread-died")]])
+            };
+            let (p1, p2, p3, p4) = (panel.clone(), panel.clone(), panel.clone(), panel.clone());
+            let (d1, d2, d3) = (dist.clone(), dist.clone(), dist.clone());
+            let reference = fresh(Box::new(move |pool, vs| vec![exec_prog(pool, vs, &p1)]));
+            let after = fresh(Box::new(move |pool, vs| { let o = disturb_all(pool, vs, &d1); vec![exec_prog(pool, vs, &p2), o] }));
+            let twice = fresh(Box::new(move |pool, vs| {
+                disturb_all(pool, vs, &d2);
+                let first = exec_prog(pool, vs, &p3);
+                disturb_all(pool, vs, &d2);
+                vec![first, exec_prog(pool, vs, &p3)]
+            }));
+            let here = exec_prog(&pool, &vs, &p4);
+            disturb_all(&pool, &vs, &d3);
+            let here_after = exec_prog(&pool, &vs, &p4);
+            let outcomes = after.get(1).cloned().unwrap_or_default();
+            out.case(key, a, &[texts(&reference), hashes(&after[..1]), hashes(&twice), hashes(&[here]), hashes(&[here_after]),
+                if outcomes.is_empty() { s("~") } else { outcomes.join(".") }]);
+        }
+        "C19.rng" => {
+            // bdd vars r seed coins => per (operation, generator) the distinct `result@draws` over 2r identically seeded
+            // runs (r in this thread, r in threads); per operation the results of r runs with OTHER seeds
+            let bdd = Arc::new(Bdd::from_string(&a[0]));
+            let vars = Arc::new(parse_vars(&a[1]));
+            let r: usize = a[2].parse().unwrap();
+            let seed: u64 = a[3].parse().unwrap();
+            let coins = Arc::new(parse_bits(&a[4]));
+            let n = bdd.num_vars() as usize;
+            // one evaluation of operation `op` (0..4) with a counting wrapper around a freshly seeded generator
+            fn one(bdd: &Bdd, vars: &[BddVariable], n: usize, op: usize, std_seed: Option<u64>, coins: &[bool]) -> String {
+                fn go<R: rand::RngCore>(bdd: &Bdd, vars: &[BddVariable], n: usize, op: usize, inner: R) -> String {
+                    let mut rng = Counting { inner, draws: 0 };
+                    let res = catch(|| match op {
+                        0 => fmt_opt_val(bdd.random_valuation(&mut rng)),
+                        1 => fmt_opt_pv(bdd.random_clause(&mut rng), n),
+                        2 => match vars.first() { Some(v) => fmt_bdd(&bdd.var_pick_random(*v, &mut rng)), None => s("novar") },
+                        _ => fmt_bdd(&bdd.pick_random(vars, &mut rng)),
+                    }).unwrap_or_else(|| s("panic"));
+                    format!("{}@{}", res, rng.draws)
+                }
+                match std_seed {
+                    Some(sd) => go(bdd, vars, n, op, <rand::rngs::StdRng as rand::SeedableRng>::seed_from_u64(sd)),
+                    None => go(bdd, vars, n, op, CoinRng::new(coins.to_vec())),
+                }
+            }
+            let combos: Vec<(usize, bool)> = (0..4).flat_map(|op| [(op, true), (op, false)]).collect();
+            let all = |bdd: &Bdd, vars: &[BddVariable], coins: &[bool]| -> Vec<String> {
+                combos.iter().map(|(op, std)| one(bdd, vars, n, *op, if *std { Some(seed) } else { None }, coins)).collect()
+            };
+            let mut seen: Vec<std::collections::BTreeSet<String>> = vec![Default::default(); combos.len()];
+            for _ in 0..r { for (i, x) in all(&bdd, &vars, &coins).into_iter().enumerate() { seen[i].insert(x); } }
+            let from_threads: Vec<Vec<String>> = std::thread::scope(|sc| {
+                let handles: Vec<_> = (0..r).map(|_| { let (bdd, vars, coins, all) = (&bdd, &vars, &coins, &all); sc.spawn(move || all(bdd, vars, coins)) }).collect();
+                handles.into_iter().map(|h| h.join().unwrap_or_else(|_| vec![s("thread-died@0"); 8])).collect()
+            });
+            for run in from_threads { for (i, x) in run.into_iter().enumerate() { seen[i].insert(x); } }
+            let det = seen.iter().map(|x| x.iter().cloned().collect::<Vec<_>>().join("#")).collect::<Vec<_>>().join(";");
+            let other = (0..4).map(|op| (1..=r as u64).map(|d| one(&bdd, &vars, n, op, Some(seed.wrapping_add(d.wrapping_mul(0x9E3779B97F4A7C15))), &coins)).collect::<Vec<_>>().join("#"))
+                .collect::<Vec<_>>().join(";");
+            out.case(key, a, &[det, other]);
+        }
         _ => panic!("unknown key {}", key),
     }
+}
+
+// ---- history independence (C19.hist): disturbances
+
+/// accepts `accept` bytes, then fails: `z` = `Ok(0)` (std's `write_all` turns it into WriteZero), `e` = an error,
+/// `i` = `Interrupted` once (retried by `write_all`), then an error
+struct FailingWriter { accept: usize, mode: char, written: usize, interrupted: bool }
+impl Write for FailingWriter {
+    fn write(&mut self, buf: &[u8]) -> std::io::Result<usize> {
+        if self.written < self.accept {
+            let k = buf.len().min(self.accept - self.written);
+            self.written += k;
+            return Ok(k);
+        }
+        match self.mode {
+            'z' => Ok(0),
+            'i' if !self.interrupted => { self.interrupted = true; Err(std::io::Error::new(std::io::ErrorKind::Interrupted, "interrupted")) }
+            _ => Err(std::io::Error::new(std::io::ErrorKind::Other, "scripted failure")),
+        }
+    }
+    fn flush(&mut self) -> std::io::Result<()> { Ok(()) }
+}
+/// yields `data`, then an error
+struct FailingReader { data: Vec<u8>, pos: usize }
+impl Read for FailingReader {
+    fn read(&mut self, buf: &mut [u8]) -> std::io::Result<usize> {
+        if self.pos >= self.data.len() { return Err(std::io::Error::new(std::io::ErrorKind::Other, "scripted failure")); }
+        let k = buf.len().min(self.data.len() - self.pos).min(7);
+        buf[..k].copy_from_slice(&self.data[self.pos..self.pos + k]);
+        self.pos += k;
+        Ok(k)
+    }
+}
+
+fn disturb_all(pool: &[Bdd], vs: &BddVariableSet, items: &str) -> Vec<String> {
+    if items == "~" { return vec![]; }
+    items.split(';').map(|item| catch(|| disturb(pool, vs, item)).unwrap_or_else(|| s("panic"))).collect()
+}
+
+/// one disturbance `kind:args`; the text says how it ended (`ok`, `err`, `none`; a panic is caught by the caller)
+fn disturb(pool: &[Bdd], vs: &BddVariableSet, item: &str) -> String {
+    let (kind, rest) = item.split_once(':').unwrap_or((item, ""));
+    let a: Vec<&str> = if rest.is_empty() { vec![] } else { rest.split(',').collect() };
+    let n = vs.num_vars() as usize;
+    let pb = |r: &str| -> &Bdd { &pool[r[1..].parse::<usize>().unwrap() % pool.len()] };
+    let res = |ok: bool| s(if ok { "ok" } else { "err" });
+    match kind {
+        // writer-taking functions into failing sinks: function b/s/d, mode z/e/i, bytes accepted before the failure
+        "wf" => {
+            let mut w = FailingWriter { accept: a[2].parse().unwrap(), mode: a[1].chars().next().unwrap(), written: 0, interrupted: false };
+            let b = pb(a[3]);
+            res(match a[0] { "b" => b.write_as_bytes(&mut w).is_ok(), "s" => b.write_as_string(&mut w).is_ok(), _ => b.write_as_dot_string(&mut w, vs, true).is_ok() })
+        }
+        // readers: t = good serialisation truncated to k bytes, g = garbage of k bytes, e = k good bytes then a read error
+        "rf" => {
+            let k: usize = a[2].parse().unwrap();
+            let b = pb(a[3]);
+            let good: Vec<u8> = if a[0] == "b" { b.to_bytes() } else { b.to_string().into_bytes() };
+            let data: Vec<u8> = match a[1] {
+                "t" => good[..k.min(good.len())].to_vec(),
+                "g" => { let mut r = Rng64(k as u64); (0..k).map(|_| if a[0] == "b" { r.next() as u8 } else { b"|,0123456789x- \n"[r.below(17) as usize] }).collect() }
+                _ => good[..k.min(good.len())].to_vec(),
+            };
+            if a[1] == "e" {
+                let mut rd = FailingReader { data, pos: 0 };
+                res(if a[0] == "b" { Bdd::read_as_bytes(&mut rd).is_ok() } else { Bdd::read_as_string(&mut rd).is_ok() })
+            } else {
+                res(if a[0] == "b" { Bdd::read_as_bytes(&mut &data[..]).is_ok() } else { Bdd::read_as_string(&mut &data[..]).is_ok() })
+            }
+        }
+        // operations that panic by design
+        "pn" => {
+            let b = pb(a.get(1).copied().unwrap_or("p0"));
+            match a[0] {
+                "flip" => { Bdd::fused_binary_flip_op((b, Some(var(n + 3))), (b, None), None, op_function::and); }
+                "flipout" => { Bdd::check_fused_binary_flip_op(1000, (b, None), (b, None), Some(var(n + 1)), op_function::or); }
+                "mismatch" => { b.and(&BddVariableSet::new_anonymous(n as u16 + 1).mk_true()); }
+                "mismatch3" => { Bdd::if_then_else(b, &BddVariableSet::new_anonymous(n as u16 + 2).mk_false(), b); }
+                "rename" => { let mut c = b.clone(); unsafe { c.rename_variable(var(0), var(n + 5)); } }
+                "rename2" => { let mut c = vs.eval_expression_string("x0 & x1"); unsafe { c.rename_variable(var(0), var(1)); } }
+                "setnum" => { let mut c = vs.mk_var(var(n - 1)); unsafe { c.set_num_vars(0); } }
+                "cnf" => { vs.mk_cnf(&[BddPartialValuation::from_values(&[(var(n + 2), true)]), BddPartialValuation::from_values(&[(var(0), false)])]); }
+                "fromstr" => { Bdd::from_string("|3,0,0|3,1,1|x,0,1|"); }
+                "frombytes" => { Bdd::from_bytes(&mut &[1u8, 2, 3][..]); }
+                "evalunknown" => { vs.eval_expression_string("x0 & unknown_name"); }
+                "evalparse" => { vs.eval_expression_string("x0 & & ("); }
+                "mkvar" => { vs.mk_var_by_name("no such name"); }
+                "toexpr" => { Bdd::from_string("|3,0,0|3,1,1|1,3,1|2,0,1|0,2,1|").to_boolean_expression(&BddVariableSet::new_anonymous(3)); }
+                "pathiter" => { return Bdd::from_string("|2,0,0|2,1,1|1,1,1|0,0,2|").sat_clauses().take(20).count().to_string(); }
+                "valuation" => { b.eval_in(&BddValuation::new(vec![true; n.saturating_sub(1)])); }
+                // NOT included: `var_select` / `select` / `mk_literal` with a variable >= num_vars do not panic — `apply` never
+                // terminates and allocates without bound (observed: 40 GB, OOM kill); reported as a finding, out of scope here
+                "exists" => { b.var_exists(var(n + 7)); }
+                "builderdup" => {
+                    let mut builder = BddVariableSetBuilder::new();
+                    builder.make_variable("a");
+                    let dup = catch(|| { let mut b2 = builder.clone(); b2.make_variable("a"); });
+                    let dup2 = catch(std::panic::AssertUnwindSafe(|| { builder.make_variable("a"); }));
+                    builder.make_variable("b");
+                    let set = builder.build();
+                    return format!("{}{}{}", dup.is_some() as u8, dup2.is_some() as u8, set.num_vars());
+                }
+                "builderbad" => { let mut builder = BddVariableSetBuilder::new(); builder.make_variable("a&b"); }
+                "newdup" => { BddVariableSet::new(&["a", "b", "a"]); }
+                _ => panic!("unknown disturbance {}", item),
+            }
+            s("ok")
+        }
+        // limited operators that give up
+        "ln" => {
+            let (x, y) = (pb(a[0]), pb(a[1]));
+            let r1 = Bdd::binary_op_with_limit(0, x, y, op_function::xor).is_none();
+            let r2 = Bdd::check_binary_op(0, x, y, op_function::or).is_none();
+            let r3 = Bdd::fused_binary_flip_op_with_limit(1, (x, Some(var(0))), (y, None), None, op_function::iff).is_none();
+            format!("{}{}{}", r1 as u8, r2 as u8, r3 as u8)
+        }
+        // iterators consumed only partially and dropped
+        "it" => {
+            let k: usize = a[1].parse().unwrap();
+            let b = pb(a[2]);
+            match a[0] {
+                "v" => b.sat_valuations().take(k).count(),
+                "c" => b.sat_clauses().take(k).count(),
+                "V" => b.clone().into_sat_valuations().take(k).count(),
+                _ => b.clone().into_sat_clauses().take(k).count(),
+            }.to_string()
+        }
+        // any instruction of the program language (results are dropped)
+        "op" => match exec(pool, vs, &[], rest) { Ok(_) => s("ok"), Err(()) => s("stuck") },
+        _ => panic!("unknown disturbance {}", item),
+    }
+}
+
+/// counts the draws a callee makes on the generator it was given
+struct Counting<R> { inner: R, draws: u64 }
+impl<R: rand::RngCore> rand::RngCore for Counting<R> {
+    fn next_u32(&mut self) -> u32 { self.draws += 1; self.inner.next_u32() }
+    fn next_u64(&mut self) -> u64 { self.draws += 1; self.inner.next_u64() }
+    fn fill_bytes(&mut self, dest: &mut [u8]) { self.draws += 1; self.inner.fill_bytes(dest) }
+    fn try_fill_bytes(&mut self, dest: &mut [u8]) -> Result<(), rand::Error> { self.draws += 1; self.inner.try_fill_bytes(dest) }
 }
 
 // ---- name resolution (C19.names)
@@ -649,6 +866,64 @@ fn core_tt(rng: &mut Rng64, n: usize) -> TT {
     }
 }
 
+/// the reference panel: serialisers (also into accepting sinks), readers of good input, Boolean / relational operators,
+/// counts, normal forms, enumeration, parser + evaluation, dot export
+fn panel(n: usize, pool_len: usize) -> String {
+    let q = format!("p{}", pool_len - 1);
+    let v = n - 1;
+    [s("to_bytes:p0"), s("to_string:p0"), s("wbytes:p0"), s("wstring:p0"), s("wdot:p0,1"), format!("to_bytes:{}", q), format!("wbytes:{}", q),
+     format!("wstring:{}", q), format!("wdot:{},0", q), s("rbytes:p1"), s("rstring:p1"), s("bytes_rt:p1"), s("str_rt:p1"),
+     format!("and:p0,{}", q), format!("or:p1,{}", q), s("not:p1"), format!("exists:p1,{}", v), format!("restrict:p1,{}=1", v), s("pick:p1,0"),
+     s("card:p1"), s("to_dnf:p1"), s("to_odnf:p1"), s("sat_vals:p1"), s("sat_clauses:p1"), format!("evalstr:(x0=>!x{})", v), s("expr_text:p1"),
+     s("dot:p1,0"), s("to_bytes:l14"), s("wbytes:l13"), s("to_string:l16"), s("wstring:l15"), s("witness:p1"), s("support:p1")].join(";")
+}
+
+/// every disturbance once (pool references p0, p1, p2)
+fn all_disturbances(n: usize) -> Vec<String> {
+    let mut d: Vec<String> = vec![];
+    for f in ["b", "s", "d"] { for m in ["z", "e", "i"] { for pos in [0usize, 7] { for b in ["p0", "p1"] { d.push(format!("wf:{},{},{},{}", f, m, pos, b)); } } } }
+    for f in ["b", "s"] { for k in ["t", "g", "e"] { for len in [3usize, 14] { d.push(format!("rf:{},{},{},p1", f, k, len)); } } }
+    for k in ["flip", "flipout", "mismatch", "mismatch3", "rename", "setnum", "cnf", "fromstr", "frombytes", "evalunknown", "evalparse", "mkvar", "toexpr",
+        "pathiter", "valuation", "exists", "builderdup", "builderbad", "newdup"] { d.push(format!("pn:{},p1", k)); }
+    if n >= 2 { d.push(s("pn:rename2,p1")); }
+    d.push(s("ln:p1,p2")); d.push(s("ln:p0,p0"));
+    for k in ["v", "c", "V", "C"] { d.push(format!("it:{},1,p1", k)); d.push(format!("it:{},0,p2", k)); }
+    for op in ["lim:and,0,p1,p2", "check:or,1,p1,p1", "transfer:p1", "expr_rt:p1", "substitute:p1,0,p1", "flip:and,p1,99,p1,-,-", "evalstr:(x0&nope)", "mk_clause:77=1"] { d.push(format!("op:{}", op)); }
+    d
+}
+
+fn gen_pool_n(rng: &mut Rng64, n: usize, len: usize) -> String {
+    (0..len).map(|_| {
+        let mut b = match rng.below(8) { 0 => bdd_of_tt(n, &vec![false; 1 << n]), 1 => bdd_of_tt(n, &vec![true; 1 << n]), _ => bdd_of_tt(n, &core_tt(rng, n)) };
+        if rng.chance(1, 8) { b = noncanon_variant(rng, &b); }
+        fmt_bdd(&b)
+    }).collect::<Vec<_>>().join("/")
+}
+
+/// one `C19.rng` case: a diagram with `gaps.len() - 1` decision levels, `gaps[0]` free variables before the first level,
+/// `gaps[j]` between level j-1 and level j, `gaps[last]` after the last level; a random non-false function of the levels
+fn gap_case(rng: &mut Rng64, gaps: &[usize], r: usize) -> Vec<String> {
+    let k = gaps.len() - 1;
+    let mut pos: Vec<usize> = vec![];
+    let mut at = 0usize;
+    for j in 0..k { at += gaps[j]; pos.push(at); at += 1; }
+    let n = at + gaps[k];
+    let mut tt: TT = if rng.chance(1, 4) { vec![true; 1 << k] } else { (0..(1usize << k)).map(|_| rng.chance(2, 3)).collect() };
+    if k > 0 && rng.chance(1, 3) { tt = (0..(1usize << k)).map(|i| i == (1 << k) - 1).collect(); }      // the conjunction of all levels
+    if tt.iter().all(|b| !*b) { tt[0] = true; }
+    let nodes: Vec<(usize, usize, usize)> = canon_triples(k, &tt).into_iter().map(|(v, l, h)| (if v == k { n } else { pos[v] }, l, h)).collect();
+    // variables to pick: tested ones, free ones inside gaps, repeated ones
+    let mut vars: Vec<String> = vec![];
+    if n > 0 {
+        for _ in 0..(1 + rng.below(3)) {
+            let v = if !pos.is_empty() && rng.bool() { *rng.pick(&pos) } else { rng.below(n as u64) as usize };
+            vars.push(v.to_string());
+        }
+    }
+    let coins: Vec<bool> = (0..n + 8).map(|_| rng.bool()).collect();
+    vec![fmt_triples(&nodes), if vars.is_empty() { s("~") } else { vars.join(".") }, r.to_string(), rng.next().to_string(), fmt_bools(&coins)]
+}
+
 const BASE_NAMES: [&str; 24] = ["Erk", "Mek", "p53", "x", "a", "var", "gene_1", "Raf", "AKT", "mTOR", "tgfb", "Ras", "k", "Kinase", "fi", "strasse",
     "cafe", "v10", "node", "I", "ab", "xy", "Cdc25", "e"];
 
@@ -814,6 +1089,50 @@ pub fn gen(tier: Tier, rng: &mut Rng64, out: &mut Out) {
             s("flip:and,p0,0,p1,-,-"), s("flip:xor,p0,-,p1,-,0")]);
         let prog = all.join(";");
         run("C19.run", &[n.to_string(), pool, format!("{}/{}", prog, prog)], out);
+    }
+    // ---- history independence: a fixed panel of reference operations on a fresh thread, after a disturbance (calls that
+    //      FAIL: refusing sinks, bad input, panics by design, limited operators giving up, dropped iterators), after
+    //      disturbance-panel-disturbance-panel, and on this thread
+    let small = s("|2,0,0|/|2,0,0|2,1,1|1,0,1|0,0,2|/|2,0,0|2,1,1|");
+    for d in all_disturbances(2) {
+        run("C19.hist", &[s("2"), small.clone(), d.clone(), panel(2, 3)], out);
+        if thorough || rng.chance(1, 2) {
+            let n = 3 + rng.below(3) as usize;
+            run("C19.hist", &[n.to_string(), gen_pool_n(rng, n, 3), d.replace("p2", "p1"), panel(n, 3)], out);
+        }
+    }
+    for _ in 0..(if thorough { 3000 / div } else { 220 }) {
+        if search_over() { break; }
+        let n = 1 + rng.below(6) as usize;
+        let pool_len = 2 + rng.below(2) as usize;
+        let all = all_disturbances(n);
+        let k = 1 + rng.below(4) as usize;
+        let mut d: Vec<String> = (0..k).map(|_| rng.pick(&all).clone()).collect();
+        // random positions for the failing sinks / truncations
+        for x in d.iter_mut() {
+            if x.starts_with("wf:") || x.starts_with("rf:") {
+                let mut f: Vec<String> = x.split(',').map(|y| y.to_string()).collect();
+                f[2] = match rng.below(4) { 0 => s("0"), 1 => s("1"), 2 => (5 + rng.below(10)).to_string(), _ => (rng.below(60)).to_string() };
+                *x = f.join(",");
+            }
+        }
+        let d: Vec<String> = d.into_iter().map(|x| x.replace("p2", &format!("p{}", pool_len - 1))).collect();
+        run("C19.hist", &[n.to_string(), gen_pool_n(rng, n, pool_len), d.join(";"), panel(n, pool_len)], out);
+    }
+    // ---- everything that takes a caller-supplied generator, on diagrams with long runs of free variables
+    for case in [gap_case(rng, &[0, 64, 0], 8), gap_case(rng, &[0, 64], 8), gap_case(rng, &[64], 8), gap_case(rng, &[0, 63, 0], 8), gap_case(rng, &[63], 8)] {
+        run("C19.rng", &case, out);
+    }
+    for i in 0..(if thorough { 3000 / div } else { 260 }) {
+        if search_over() { break; }
+        let levels = rng.below(5) as usize;                 // decision levels; gaps before, between and after them
+        let gaps: Vec<usize> = (0..=levels).map(|j| {
+            if i % 3 == 0 && j > 0 { return rng.below(3) as usize; }
+            match rng.below(16) { 0 | 1 => 0, 2 => 1, 3 => 31, 4 => 32, 5 => 33, 6 => 63, 7 | 8 => 64, 9 => 65, 10 => 127, 11 => 128, 12 => 129,
+                13 => if rng.chance(1, 3) { 1000 } else { 200 }, _ => rng.below(4) as usize }
+        }).collect();
+        let case = gap_case(rng, &gaps, if i % 5 == 0 { 12 } else { 8 });
+        run("C19.rng", &case, out);
     }
     // ---- name resolution on freshly built variable sets with groups of similar names
     run("C19.names", &[s("16"), s("Erk,ERK"), s("ERK,Erk,erk"), ["v:Erk", "v:ERK", "v:erk", "v:Erk ", "mk:erk", "safe:(Erk & !ERK)", "safe:erk", "evs:(erk | Erk)", "tr:(Erk & erk)", "tr:ERK", "trb:ERK"].iter().map(|x| esc(x)).collect::<Vec<_>>().join(";")], out);
